@@ -5,6 +5,7 @@ import (
 	"errors"
 	"fmt"
 	"io"
+	"runtime/debug"
 	"strings"
 	"sync"
 	"time"
@@ -36,6 +37,9 @@ type scenario struct {
 	rk       ranker
 	refDig   map[int]string // j -> digest of a node that imported local + the first j remote-only blocks
 	label    string
+	// slowImporter: the stream handler starts only when the whole catch-up is queued (wantMarkers nil markers expected)
+	slowImporter bool
+	wantMarkers  int
 }
 
 func (e *env) newScenario(a, h, r int, swap bool) *scenario {
@@ -331,6 +335,8 @@ func errClass(err error) string {
 	}
 	s := err.Error()
 	switch {
+	case strings.Contains(s, "panic:"):
+		return "panic"
 	case strings.Contains(s, "peer disconnected"):
 		return "disconnected"
 	case strings.Contains(s, "decode result"):
@@ -372,6 +378,8 @@ type dlResult struct {
 	DigestOK bool     `json:"digestOK"`
 	Holes    bool     `json:"holes"` // imported set is not a prefix of the remote chain
 	Foreign  []string `json:"foreign,omitempty"`
+	Panic    string   `json:"panic,omitempty"`
+	Markers  int      `json:"nilMarkersQueued"` // slow-importer cases: nil throttle markers in the queue (-1: not measured)
 }
 
 // runDownload executes the real download of a fresh local node against the peer and emits BStart..BEnd.
@@ -426,7 +434,11 @@ func (e *env) runDownload(sc *scenario, peer string, f fault, batch int, remote 
 				}
 				recs = append(recs, e.rec(&b, "ok", sc.rk))
 			}
-			flog.add(trace.Ev{"e": "Fetch", "from": from, "t": "blocks", "bad": false, "bs": recs})
+			sizes := []int{}
+			for h := from; h <= sc.R && h >= 0 && len(sizes) <= len(raws); h++ {
+				sizes = append(sizes, len(rawOf(sc.remote[h])))
+			}
+			flog.add(trace.Ev{"e": "Fetch", "from": from, "t": "blocks", "bad": false, "bs": recs, "sizes": sizes})
 		}
 		go func() {
 			_ = remote.comm.Protocols()[0].Run(p2p.NewPeer(discover.NodeID{0x20, byte(seq >> 8), byte(seq)}, "local", nil), re)
@@ -439,7 +451,32 @@ func (e *env) runDownload(sc *scenario, peer string, f fault, batch int, remote 
 	}
 
 	ctx, cancel := context.WithTimeout(context.Background(), 60*time.Second)
-	served, err := comm.VerifDownload(ctx, local.repo, le, uint32(sc.H), local.node.VerifHandleBlockStream)
+	var panicText string
+	markers := -1
+	handler := func(hctx context.Context, stream <-chan *block.Block) (herr error) {
+		defer func() {
+			if r := recover(); r != nil {
+				panicText = fmt.Sprintf("panic: %v\n%s", r, debug.Stack())
+				herr = fmt.Errorf("panic: handleBlockStream: %v", r)
+			}
+		}()
+		if sc.slowImporter {
+			// an importer that starts late: the decoder queues the whole catch-up first, so the throttle rule of
+			// decodeAndWarmupBatches (more than 10% of the channel queued, block >= 4 KB) emits its nil markers
+			want, last, stable := sc.R-sc.A, -1, 0
+			for stable < 300 && len(stream) < want+sc.wantMarkers { // gives up after 3 s without progress
+				if n := len(stream); n == last {
+					stable++
+				} else {
+					last, stable = n, 0
+				}
+				time.Sleep(10 * time.Millisecond)
+			}
+			markers = len(stream) - want
+		}
+		return local.node.VerifHandleBlockStream(hctx, stream)
+	}
+	served, err := comm.VerifDownload(ctx, local.repo, le, uint32(sc.H), handler)
 	cancel()
 	le.Close()
 	serveErr := <-served
@@ -449,7 +486,8 @@ func (e *env) runDownload(sc *scenario, peer string, f fault, batch int, remote 
 	}
 
 	// observations
-	res := dlResult{Label: sc.label, Peer: peer, Fault: f.kind, Height: f.height, Batch: batch, Status: errClass(err)}
+	res := dlResult{Label: sc.label, Peer: peer, Fault: f.kind, Height: f.height, Batch: batch, Status: errClass(err),
+		Panic: panicText, Markers: markers}
 	if err != nil {
 		res.Err = err.Error()
 	}
@@ -499,7 +537,8 @@ func (e *env) runDownload(sc *scenario, peer string, f fault, batch int, remote 
 		locals = append(locals, e.rec(b, "ok", sc.rk))
 	}
 	evs := []trace.Ev{{"e": "BStart", "case": fmt.Sprintf("%s/%s/%s@%d/b%d", sc.label, peer, f.kind, f.height, batch),
-		"local": locals, "best": e.name(sc.local[sc.H].Header().ID()), "anc": sc.A, "sched": sched}}
+		"local": locals, "best": e.name(sc.local[sc.H].Header().ID()), "anc": sc.A, "sched": sched,
+		"honest": peer == "honest", "rhead": e.rec(sc.remote[sc.R], "ok", sc.rk)}}
 	evs = append(evs, flog.evs...)
 	evs = append(evs, trace.Ev{"e": "BEnd", "status": res.Status, "imported": imported, "best": e.name(bestID),
 		"dropped": res.Dropped, "digestOK": res.DigestOK, "err": res.Err})
@@ -575,6 +614,7 @@ func (e *env) runDownloads(amax int, deep bool) {
 	}
 	// batch boundaries of the real server: by byte size (512 KB) and, in the deep tier, by count (1024 blocks)
 	results = append(results, e.bigCases(deep)...)
+	results = append(results, e.runStreams()...)
 
 	e.stats["cases"] = results
 	e.stats["scenarios"] = nScen
@@ -609,6 +649,125 @@ func (e *env) bigCases(deep bool) []dlResult {
 	out = append(out, e.runDownload(sc, "scripted", fault{"oversized", 4 + proto.MaxBlocksFromNumber, 0}, proto.MaxBlocksFromNumber, nil, 9101))
 	if deep {
 		run(2, 2, e.bigBranch(2, 7, 200*1024), "bytes-A2-H2-R9")
+	}
+	// blocks larger than the whole 512 KB reply budget: first in a reply, and in the middle of the chain
+	e.trunkTo(2)
+	run(2, 3, e.dataBlocks(e.trunk[2], []int{600 * 1024, 0, 0}, 7_000_000), "huge-first-A2-H3-R5")
+	run(1, 1, e.dataBlocks(e.trunk[1], []int{0, 300 * 1024, 700 * 1024, 0, 540 * 1024}, 7_100_000), "huge-middle-A1-H1-R6")
+	// a catch-up of 300 blocks ending in blocks >= 4 KB with a late importer: the stream ends in nil throttle markers
+	tail := []int{5 * 1024, 5 * 1024, 9 * 1024}
+	long := e.branch('r', 2, 300)
+	long = append(append([]*block.Block{}, long...), e.dataBlocks(long[len(long)-1], tail, 7_200_000)...)
+	run2 := func(a, h int, br []*block.Block, label string, markers int) {
+		before := len(out)
+		sc := &scenario{A: a, H: h, R: a + len(br), refDig: map[int]string{}, label: label, slowImporter: true, wantMarkers: markers}
+		sc.local = e.chainOf('l', a, h-a)
+		sc.remote = append(append([]*block.Block{}, e.trunk[:a+1]...), br...)
+		sc.xchain = e.branch('x', a, 1)
+		sc.rk = newRanker(sc.local, sc.remote, sc.xchain)
+		tpl := e.open(kvrec.New(), true, false)
+		tpl.importAll(sc.local[1:])
+		sc.template = tpl.kv
+		tpl.close()
+		rem := e.open(kvrec.New(), true, false)
+		rem.importAll(sc.remote[1:])
+		rem.comm = comm.New(rem.repo, nil)
+		out = append(out, e.runDownload(sc, "honest", fault{kind: "none"}, 0, rem, 9200+len(out)))
+		rem.comm = nil
+		rem.close()
+		if out[before].Markers < 1 && out[before].Panic == "" {
+			fail("throttle case %s: no nil marker was queued (markers=%d)", label, out[before].Markers)
+		}
+	}
+	run2(2, 4, long, "throttle-A2-H4-R305", 5) // 5 KB -> 1 marker, 5 KB -> 1, 9 KB -> 3
+	return out
+}
+
+// runStreams feeds the block stream handler (node.handleBlockStream via its hook) hand-made streams: the remote-only
+// blocks of a scenario with nil throttle markers at every position, including first, last, doubled and only-nil.
+func (e *env) runStreams() []dlResult {
+	var out []dlResult
+	sc := e.newScenario(1, 2, 6, false)
+	blocks := sc.remote[sc.A+1:]
+	n := len(blocks)
+	var plans [][]int // number of nil markers before block i (index n: after the last block)
+	plans = append(plans, make([]int, n+1))
+	for pos := 0; pos <= n; pos++ {
+		p := make([]int, n+1)
+		p[pos] = 1
+		plans = append(plans, p)
+	}
+	all, dbl, lead := make([]int, n+1), make([]int, n+1), make([]int, n+1)
+	for i := range all {
+		all[i] = 1
+	}
+	dbl[n], dbl[n-1], lead[0], lead[n] = 3, 2, 2, 1
+	plans = append(plans, all, dbl, lead)
+	for pi, plan := range plans {
+		for _, take := range []int{n, 0, 1} { // whole chain, only markers, a single block
+			if take != n && pi != 1 && pi != len(plans)-3 && pi != n+1 {
+				continue
+			}
+			local := e.open(sc.template.Clone(), false, false)
+			var stream []*block.Block
+			recs := []trace.Ev{}
+			nilRec := trace.Ev{"id": "nil"}
+			for i := 0; i <= n; i++ {
+				for k := 0; k < plan[i]; k++ {
+					stream = append(stream, nil)
+					recs = append(recs, nilRec)
+				}
+				if i < take {
+					stream = append(stream, blocks[i])
+					recs = append(recs, e.rec(blocks[i], "ok", sc.rk))
+				}
+			}
+			ch := make(chan *block.Block, len(stream)+1)
+			for _, b := range stream {
+				ch <- b
+			}
+			close(ch)
+			var err error
+			panicText := ""
+			func() {
+				defer func() {
+					if r := recover(); r != nil {
+						panicText = fmt.Sprintf("panic: %v\n%s", r, debug.Stack())
+						err = fmt.Errorf("panic: handleBlockStream: %v", r)
+					}
+				}()
+				err = local.node.VerifHandleBlockStream(context.Background(), ch)
+			}()
+			label := fmt.Sprintf("stream/plan%d/take%d", pi, take)
+			res := dlResult{Label: label, Peer: "stream", Fault: "none", Status: errClass(err), Panic: panicText, Markers: len(stream) - take}
+			if err != nil {
+				res.Err = err.Error()
+			}
+			imported := []string{}
+			for _, b := range blocks {
+				if local.has(b.Header().ID()) {
+					imported = append(imported, e.name(b.Header().ID()))
+				}
+			}
+			res.Imported = len(imported)
+			want, ok := sc.refDig[len(imported)]
+			if !ok {
+				want, _ = e.refDigest(sc, len(imported))
+				sc.refDig[len(imported)] = want
+			}
+			res.DigestOK = local.kv.Digest() == want
+			bestID := local.best().ID()
+			locals := []trace.Ev{}
+			for _, b := range sc.local {
+				locals = append(locals, e.rec(b, "ok", sc.rk))
+			}
+			e.emit(trace.Ev{"e": "SStart", "case": label, "local": locals, "best": e.name(sc.local[sc.H].Header().ID()),
+				"anc": sc.A, "stream": recs},
+				trace.Ev{"e": "BEnd", "status": res.Status, "imported": imported, "best": e.name(bestID), "dropped": false,
+					"digestOK": res.DigestOK, "err": res.Err})
+			local.close()
+			out = append(out, res)
+		}
 	}
 	return out
 }
